@@ -57,7 +57,8 @@ def c01(tier):
     for model, cfg in cfgs("mc/MC_Lex", tier, [""]):
         mc_replay(c, model, cfg, "every string (garbage included) of bounded length over a boundary alphabet, all 20 types")
     drive_parse_and_validate(c, tier, "random long references, near misses, IPv6/IPv4 shapes and ill-formed UTF-8 byte strings: "
-                                      "verdict (and components) of the real parsers judged by TLC")
+                                      "verdict (and components) of the real parsers judged by TLC",
+                             kinds=("parse", "parse_bytes", "auth"))
     return c.finish(
         rule="one case per transition of the product automaton (low and high symbol of each cell); "
              "non-trivial = distinct (type, word) pairs",
@@ -111,6 +112,9 @@ def c03(tier):
         mc_replay(c, model, cfg, "authorities embedded in references")
     for model, cfg in cfgs("mc/MC_Compose", tier, [""]):
         mc_replay(c, model, cfg, "composed references: IP-literals with user info and port, empty parts, multi-byte hosts")
+    drive_parse_and_validate(c, tier, "random authorities drawn from the character classes of section 3.2 (every allowed character "
+                                      "next to every delimiter, long user infos, all host kinds), stand-alone and embedded; the three "
+                                      "readings of user info / host / port judged by TLC", kinds=("auth",))
     return c.finish(rule="all valid authorities of bounded length (IP-literals included), stand-alone and embedded",
                     assumptions=TRUST)
 
@@ -160,6 +164,7 @@ def c06(tier):
     for model, cfg in cfgs("mc/MC_Resolve", tier, [""]):
         mc_replay(c, model, cfg, "all (base, reference) pairs of the component vocabularies + the 42 examples of RFC 3986 5.4")
     drive_and_validate(c, tier, ops={"resolve"})
+    suite_and_validate(c, {"resolve"})
     return c.finish(rule="bases x references composed from scheme/authority/path/query/fragment vocabularies, every 5.2.2 "
                          "branch with dot and empty segments; expected = set of admissible results computed by spec/Resolve.tla",
                     assumptions=TRUST + ["RFC 3986 5.2.2-5.2.4, 5.3 transcription in spec/Resolve.tla (reproduces all 42 "
@@ -225,11 +230,26 @@ def drive_and_validate(c, tier, ops=None):
     c.exhaustive = False
 
 
-def drive_parse_and_validate(c, tier, label):
+def suite_and_validate(c, ops):
+    """Direction B on the repository's own test suite, through the hooks compiled into the library."""
+    ev = vlib.run_suite_trace()
+    n, bad, tr = vlib.run_trace(ev, name="%s-suite" % c.pid, select=lambda e: (e.get("op") if e["ev"] == "edit" else e["ev"]) in ops)
+    c.add_trace(n, bad, tr, "the calls the repository's own unit, integration and doc tests make, recorded by the hooks "
+                            "compiled into the library (--cfg iref_verif) and judged by the trace specification",
+                charge=lambda e, why: charge_edit(e, why) if e["ev"] == "edit" else ["C15"])
+
+
+def charge_parse(ev, why):
+    if ev.get("ev") == "auth":
+        return ["C01"] if why == "verdict" else ["C03", "C01"] if why == "panic" else ["C03"]
+    return ["C01", "C02", "C14"]
+
+
+def drive_parse_and_validate(c, tier, label, kinds=("parse", "parse_bytes")):
     n = 6000 if tier == "quick" else 150000
     ev = vlib.run_drive_parse("%s-%s" % (c.pid, tier), n)
-    k, bad, tr = vlib.run_trace(ev, name="%s-parse-%s" % (c.pid, tier))
-    c.add_trace(k, bad, tr, label)
+    k, bad, tr = vlib.run_trace(ev, name="%s-parse-%s" % (c.pid, tier), select=lambda e: e.get("ev") in kinds)
+    c.add_trace(k, bad, tr, label, charge=charge_parse)
     c.exhaustive = False
 
 
@@ -283,6 +303,8 @@ def c04(tier):
         mc_replay(c, model, cfg, "in-place normalisation stand-alone and inside references (incl. paths beyond 512 bytes)")
     drive_and_validate(c, tier)
     sessions_and_validate(c, tier, None)
+    suite_and_validate(c, set(EDIT_PROP))
+    big_and_validate(c, {"big_path", "big_pct"})
     return c.finish(rule="editor state graph: nodes = texts reachable within the length bound from 5 initial buffers, "
                          "edges = every mutator with every vocabulary argument; plus handle behaviours",
                     assumptions=EDIT_TRUST)
@@ -293,6 +315,7 @@ def c05(tier):
     for model, cfg in cfgs("mc/MC_Editor", tier, [""]):
         mc_replay(c, model, cfg, "setter edges: expected text fixed by the specification (R1-R3 mandatory exactly when needed)")
     drive_and_validate(c, tier, ops={"set_scheme", "set_authority", "set_path", "set_query", "set_fragment"})
+    suite_and_validate(c, {"set_scheme", "set_authority", "set_path", "set_query", "set_fragment"})
     return c.finish(rule="the five setters with every vocabulary argument from every reachable text",
                     assumptions=EDIT_TRUST)
 
@@ -306,6 +329,7 @@ def c10(tier):
         mc_replay(c, model, cfg, "single path-editing calls from every reachable text")
     drive_and_validate(c, tier, ops={"push", "pop", "clear", "sym_push", "normalize"})
     sessions_and_validate(c, tier, "path")
+    suite_and_validate(c, {"push", "pop", "clear", "sym_push", "normalize"})
     return c.finish(rule="contexts x initial paths x all sequences of push/pop/clear/symbolic_push/symbolic_append/normalize",
                     assumptions=EDIT_TRUST)
 
@@ -318,6 +342,7 @@ def c11(tier):
         mc_replay(c, model, cfg, "single authority-editing calls from every reachable text")
     drive_and_validate(c, tier, ops={"set_userinfo", "set_host", "set_port"})
     sessions_and_validate(c, tier, "auth")
+    suite_and_validate(c, {"set_userinfo", "set_host", "set_port"})
     return c.finish(rule="initial references x all sequences of set_userinfo/set_host/set_port",
                     assumptions=EDIT_TRUST)
 
@@ -326,6 +351,7 @@ def c19(tier):
     c = new_check("C19", tier)
     for model, cfg in cfgs("mc/MC_Pct", tier, [""]):
         mc_replay(c, model, cfg, "component texts over a token alphabet covering every class of Unicode Table 3-7")
+    big_and_validate(c, {"big_pct"})
     return c.finish(rule="token strings of bounded length for user info, host, segment, query, fragment of both families",
                     assumptions=TRUST + ["Unicode Table 3-7 transcription in spec/Pct.tla (TLC checks the UTF-8 round trip)"])
 
@@ -348,6 +374,7 @@ def c15(tier):
                     c.samples.append(vlib.pretty_case(e))
                     if len(c.samples) >= 4:
                         break
+    suite_and_validate(c, {"rel"})
     return c.finish(rule="pairs (a, b): schemes equal/different, authorities equal/different/absent, absolute and rootless "
                          "paths of bounded segment count with dot, empty and colon segments, query/fragment; each recorded "
                          "result is one validated event",
